@@ -182,7 +182,10 @@ MovementAuthorized(g, ev) ==
   CASE o.op = "transfer"      -> o.from \in o.auth
     [] o.op = "transfer_from" -> /\ o.sp \in o.auth
                                  /\ AllowAt(g, o.from, o.sp, ev.now) >= o.amt
-                                 /\ ev.obs.allow[o.from][o.sp] = AllowAt(g, o.from, o.sp, ev.now) - o.amt
+                                 \* (a spend of nothing may find the allowance lapsed to zero)
+                                 /\ IF o.amt > 0
+                                    THEN ev.obs.allow[o.from][o.sp] = AllowAt(g, o.from, o.sp, ev.now) - o.amt
+                                    ELSE AllowSame(ev.obs.allow[o.from][o.sp], AllowAt(g, o.from, o.sp, ev.now))
     [] OTHER -> FALSE
 
 Cons(m, g, ev) ==
